@@ -321,19 +321,50 @@ func CheckC12(r *Run) int {
 				return layOutcome{Kind: "same"}
 			}
 		}
-		k := c.Choose("blanks", 1, 2)
-		var sy []gosym.Str
-		for i := 0; i < k; i++ {
-			b := c.B.ByteVar(fmt.Sprintf("w%d", i), " \t")
-			c.S.Declare(b)
-			sy = append(sy, gosym.ByteStr(b))
-		}
-		symws := gosym.Concat(sy...)
 		var gapStr gosym.Str
-		if strings.Contains(orig, "\n") && c.Fork() {
-			gapStr = gosym.Concat(gosym.Conc(orig), symws) // indentation after the line break
-		} else {
-			gapStr = gosym.Concat(symws, gosym.Conc(orig)) // blanks between tokens / trailing blanks before the line break
+		switch mode := c.Choose("insertion", 0, 2); mode {
+		case 0:
+			k := c.Choose("blanks", 1, 2)
+			var sy []gosym.Str
+			for i := 0; i < k; i++ {
+				b := c.B.ByteVar(fmt.Sprintf("w%d", i), " \t")
+				c.S.Declare(b)
+				sy = append(sy, gosym.ByteStr(b))
+			}
+			symws := gosym.Concat(sy...)
+			if strings.Contains(orig, "\n") && c.Fork() {
+				gapStr = gosym.Concat(gosym.Conc(orig), symws) // indentation after the line break
+			} else {
+				gapStr = gosym.Concat(symws, gosym.Conc(orig)) // blanks between tokens / trailing blanks before the line break
+			}
+		case 1:
+			// a block comment whose content is 0..3 symbolic bytes (no terminator inside): plain layout between tokens
+			k := c.Choose("comment-bytes", 0, 3)
+			var sy []gosym.Str
+			var bs []*sym.Term
+			for i := 0; i < k; i++ {
+				b := c.B.ByteVar(fmt.Sprintf("cm%d", i), "a*/ \"")
+				c.S.Declare(b)
+				bs = append(bs, b)
+				sy = append(sy, gosym.ByteStr(b))
+			}
+			for i := 0; i+1 < k; i++ {
+				c.AssumeUnchecked(c.B.Not(c.B.And(c.B.Eq(bs[i], c.B.BV('*', 8)), c.B.Eq(bs[i+1], c.B.BV('/', 8)))))
+			}
+			gapStr = gosym.Concat(gosym.Conc(" /*"), gosym.Concat(sy...), gosym.Conc("*/ "), gosym.Conc(orig))
+		default:
+			// a line comment of 0..3 symbolic bytes in front of a line break
+			if !strings.Contains(orig, "\n") {
+				return layOutcome{Kind: "same"}
+			}
+			k := c.Choose("comment-bytes", 0, 3)
+			var sy []gosym.Str
+			for i := 0; i < k; i++ {
+				b := c.B.ByteVar(fmt.Sprintf("lc%d", i), "a*/ \"`")
+				c.S.Declare(b)
+				sy = append(sy, gosym.ByteStr(b))
+			}
+			gapStr = gosym.Concat(gosym.Conc(" //"), gosym.Concat(sy...), gosym.Conc(orig))
 		}
 		var parts []gosym.Str
 		var ob strings.Builder
@@ -419,7 +450,7 @@ func CheckC12(r *Run) int {
 			}
 		}
 	}})
-	r.Absorb("H_C12_symbolic_blanks", st, fmt.Sprintf("%d gap positions (every gap of the hand-written seeds, %d sampled): 1..2 symbolic bytes over {blank, tab} inserted before the gap's content or, at line breaks, after it (indentation); the lexer runs on the symbolic bytes", len(wsSites), len(wsSites)-nPri))
+	r.Absorb("H_C12_symbolic_blanks", st, fmt.Sprintf("%d gap positions (every gap of the hand-written seeds, %d sampled): 1..2 symbolic bytes over {blank, tab} inserted before the gap's content or, at line breaks, after it (indentation); or a block comment with 0..3 symbolic content bytes over {a * / blank \"} (no terminator inside); or, before a line break, a line comment with 0..3 symbolic bytes; the lexer runs on the symbolic bytes", len(wsSites), len(wsSites)-nPri))
 	// classify and confirm
 	seen := map[string]bool{}
 	validated := 0
